@@ -53,6 +53,40 @@ def build(tree, names, parent=None, index=None, cls=Node):
     return n, index
 
 
+class FalsyCallable(object):
+    """a callable object whose truth value is False (an empty allow-list wrapper, a recorder that has recorded nothing
+    yet): the library's `callback or default` idiom treats it as ABSENT - consistently, in every pass"""
+
+    def __init__(self, fn):
+        self.fn = fn
+
+    def __call__(self, *a):
+        return self.fn(*a)
+
+    def __bool__(self):
+        return False
+
+    def __len__(self):
+        return 0
+
+
+# the documented positional order of the constructors (node first)
+POSITIONAL = {
+    "dot": ["graph", "name", "options", "indent", "nodenamefunc", "nodeattrfunc", "edgeattrfunc", "edgetypefunc", "filter_", "maxlevel", "stop"],
+    "unique": ["graph", "name", "options", "indent", "nodenamefunc", "nodeattrfunc", "edgeattrfunc", "edgetypefunc", "filter_", "stop", "maxlevel"],
+    "mermaid": ["graph", "name", "options", "indent", "nodenamefunc", "nodefunc", "edgefunc", "filter_", "stop", "maxlevel"],
+}
+DEFAULTS = {"dot": {"graph": "digraph", "name": "tree", "indent": 4}, "unique": {"graph": "digraph", "name": "tree", "indent": 4},
+            "mermaid": {"graph": "graph", "name": "TD", "indent": 0}}
+
+
+def construct(cls, kind, start, kw, positional):
+    if not positional or kind not in POSITIONAL:
+        return cls(start, **kw)
+    args = [kw.get(k, DEFAULTS[kind].get(k)) for k in POSITIONAL[kind]]
+    return cls(start, *args)
+
+
 def impl(case):
     names = {k: v for k, v in case["names"]}
     for l in case.get("typed") or []:
@@ -68,6 +102,12 @@ def impl(case):
         kw["stop"] = lambda n: n.label in st
     if case["maxlevel"] is not None or not case.get("defaults"):
         kw["maxlevel"] = case["maxlevel"]
+    fcb = case.get("falsy_cb")
+    if fcb:
+        # falsy callables: the case's own filter_out / stop are empty (that is what the exporter must behave like)
+        hidden_f, hidden_s = set(fcb["filter_out"]), set(fcb["stop"])
+        kw["filter_"] = FalsyCallable(lambda n: n.label not in hidden_f)
+        kw["stop"] = FalsyCallable(lambda n: n.label in hidden_s)
     if case.get("options") is not None:
         kw["options"] = case["options"]
     if case.get("indent") is not None:
@@ -83,7 +123,7 @@ def impl(case):
             kw["nodenamefunc"] = lambda n: "n%d" % n.label
             kw["nodefunc"] = lambda n: '("%s")' % n.name
             kw["edgefunc"] = lambda p, c: "--%d.%d-->" % (p.label, c.label)
-        exp = MermaidExporter(start, **kw)
+        exp = construct(MermaidExporter, "mermaid", start, kw, case.get("positional"))
     else:
         if custom:
             kw["nodenamefunc"] = lambda n: "%s|%d" % (n.name, n.label)
@@ -91,12 +131,12 @@ def impl(case):
             kw["edgeattrfunc"] = lambda p, c: None if (p.label + c.label) % 3 == 0 else 'label="%d-%d"' % (p.label, c.label)
             kw["edgetypefunc"] = lambda p, c: "--" if (p.label + c.label) % 2 == 0 else "->"
         if kind == "unique":
-            exp = UniqueDotExporter(start, **kw)
+            exp = construct(UniqueDotExporter, "unique", start, kw, case.get("positional"))
         elif kind == "rtg":
             from anytree.dotexport import RenderTreeGraph
             exp = RenderTreeGraph(start, **kw)
         else:
-            exp = DotExporter(start, **kw)
+            exp = construct(DotExporter, "dot", start, kw, case.get("positional"))
     lines = []
     part = case.get("partial", 0)
     if part:
